@@ -139,7 +139,7 @@ def _run_coqc(path, timeout):
         return 99, "", repr(e), time.time() - t
 
 
-def coq_cases(ctx, name, header, cases, per_file=150, timeout=900, case_timeout=60, prelude=""):
+def coq_cases(ctx, name, header, cases, per_file=150, timeout=900, case_timeout=60, prelude="", _retry=False):
     """Evaluate correspondence cases inside Coq.
 
     cases: list of (case_id, statement, tactic).  Every case becomes one
@@ -169,8 +169,19 @@ def coq_cases(ctx, name, header, cases, per_file=150, timeout=900, case_timeout=
             res[cid] = seen.get(cid, "NOTEVAL")
         if rc != 0:
             ctx.notes.append("coqc rc=%d on %s: %s" % (rc, os.path.basename(path), (err or out)[-400:]))
-    ctx.obligations += len(cases)
-    ctx.discharged += sum(1 for v in res.values() if v == "OK")
+    # second chance under load: a case that did not check (tactic timeout / file timeout) is re-run once, alone,
+    # with a 5x time limit.  A genuine disagreement fails again (interval / vm_compute refute quickly).
+    bad = [c for c in cases if res.get(c[0]) != "OK"]
+    if bad and not _retry:
+        ctx.notes.append("%s: %d case(s) re-run with 5x time limit" % (name, len(bad)))
+        sub = Ctx.__new__(Ctx)
+        sub.__dict__.update(ctx.__dict__)
+        sub.obligations = 0; sub.discharged = 0
+        r2 = coq_cases(sub, name + "_retry", header, bad, per_file=max(1, min(per_file, 4)), timeout=timeout * 5,
+                       case_timeout=case_timeout * 5, prelude=prelude, _retry=True)
+        res.update(r2)
+    ctx.obligations += len(cases) if not _retry else 0
+    ctx.discharged += sum(1 for v in res.values() if v == "OK") if not _retry else 0
     return res
 
 
